@@ -1,7 +1,7 @@
 (* sanitize.go: Sanitize and its pattern, as direct matchers over runes.  One pattern with two clause heads and
    one captured literal (written here with DQ for the double quote and SQ for the single quote):
      sanitizePassword (?i)(?:HEAD1|HEAD2)(LIT)
-     HEAD1 = password\s+for\s+(?:DQ(?:[^DQ\\\n]|\\.)*DQ|[^\s=DQSQ]+)\s*=\s*        (SET PASSWORD FOR name =)
+     HEAD1 = password\s+for\s+(?:DQ(?:[^DQ\\\n]|\\.)*DQ|[^\s=DQSQ]+)+\s*=\s*       (SET PASSWORD FOR name =)
      HEAD2 = with\s+password\s*                                                    (CREATE USER ... WITH PASSWORD)
      LIT = SQ(?:[^SQ\\\n]|\\.)*SQ | DQ(?:[^DQ\\\n]|\\.)*DQ | [^\sDQSQ;]+
    The two heads start with different letters and each is deterministic (no alternative shares a first character
@@ -67,11 +67,25 @@ Definition lit_rest (t : text) : option text :=
 Definition name_char (c : Z) : bool := negb (re_space c || (c =? 61) || (c =? 34) || (c =? 39)).    (* the bare-name class *)
 Fixpoint skip_name (t : text) : text :=
   match t with c :: t' => if name_char c then skip_name t' else t | [] => [] end.
+(* the user name: one or more bare and quoted parts written together (greedy; each part starts with a different
+   character class, and what must follow - blanks or '=' - starts no part, so the longest run is the only match) *)
+Fixpoint name_more (fuel : nat) (t : text) : text :=
+  match fuel with
+  | O => t
+  | S f =>
+      match t with
+      | c :: t' =>
+          if c =? 34 then match quoted_rest (S (length t')) 34 t' with Some r => name_more f r | None => t end
+          else if name_char c then name_more f (skip_name t')
+          else t
+      | [] => []
+      end
+  end.
 Definition name_rest (t : text) : option text :=
   match t with
   | c :: t' =>
-      if c =? 34 then quoted_rest (S (length t')) 34 t'
-      else if name_char c then Some (skip_name t')
+      if c =? 34 then r <-o quoted_rest (S (length t')) 34 t' ;; Some (name_more (length r) r)
+      else if name_char c then let r := skip_name t' in Some (name_more (length r) r)
       else None
   | [] => None
   end.
